@@ -1239,7 +1239,7 @@ class Evaluator:
             if p not in env or (p not in kw and params.index(p) >= len(pos)):
                 env[p] = self.eval(d, State(dict(fn.env or {})))
         sub = State(env, st.heap, st.guard)
-        fr = Frame(self.frames[-1].func, fn.module or self.frames[-1].module, fn.defcls)
+        fr = Frame(self.frames[-1].func if self.frames else None, fn.module or self.frames[-1].module, fn.defcls)
         self.frames.append(fr)
         try:
             return self.eval(lam.body, sub)
